@@ -161,7 +161,8 @@ Records::Records(
 		mAction=WRITE;
 	}
 
-    make_scan_formats(mScanFormats,true);
+    // the delimiter after a number is consumed in scan_column_values
+    make_scan_formats(mScanFormats,false);
     make_print_formats(mPrintFormats);
 
 }
@@ -387,7 +388,18 @@ void Records::scan_column_values(long long fnum, char* input_buff)
             }
 
 
-		}
+		} else if (!mReadAsWhitespace) {
+            // read through the delimiter or end of line that terminates
+            // this element, and nothing beyond it: what follows may be a
+            // string field beginning with white space or the delimiter
+            int c = fgetc(mFptr);
+            while (c != mDelim[0] && (c == ' ' || c == '\t' || c == '\r')) {
+                c = fgetc(mFptr);
+            }
+            if (c != mDelim[0] && c != '\n' && c != EOF) {
+                ungetc(c, mFptr);
+            }
+        }
         if (!skipping) {
             buff += mSizes[fnum]/mNel[fnum] ;
         }
